@@ -93,7 +93,7 @@ fn negative_control(cx: &mut CaseCtx, prop: &str, kind: Kind, obs: &[u8], rt: &R
         }
         "C04" => {
             let mut k = r.usize_below(bad.len());
-            if (kind.has_std_header() && k == 9) || (kind == Kind::Rsdp && (k == 8 || k == 32)) {
+            if judge::masked(kind, k) {
                 k = 0;
             }
             bad[k] ^= 1 << r.below(8);
